@@ -182,6 +182,10 @@ fn diff_positions(a: &[u8], b: &[u8]) -> usize {
 }
 
 pub fn check_ast(a0: &Ast, t: &Tf, st: &mut Stats, mode: Count) {
+    netted(st, || pair_case(&a0.render(), &transform(a0, t).0.render()), a0.render().len(), |st| check_ast_inner(a0, t, st, mode));
+}
+
+fn check_ast_inner(a0: &Ast, t: &Tf, st: &mut Stats, mode: Count) {
     st.eval();
     let mut a = a0.clone();
     let defect = match t.defect {
@@ -291,6 +295,10 @@ fn flip(b: &[u8], case2: u64, sep2: u64) -> Vec<u8> {
 }
 
 pub fn check_raw(s: &[u8], case2: u64, sep2: u64, st: &mut Stats, mode: Count) {
+    netted(st, || pair_case(s, &flip(s, case2, sep2)), s.len(), |st| check_raw_inner(s, case2, sep2, st, mode));
+}
+
+fn check_raw_inner(s: &[u8], case2: u64, sep2: u64, st: &mut Stats, mode: Count) {
     st.eval();
     let s2 = flip(s, case2, sep2);
     if s != s2.as_slice() && diff_positions(s, &s2) >= 2 {
@@ -307,6 +315,10 @@ pub fn check_raw(s: &[u8], case2: u64, sep2: u64, st: &mut Stats, mode: Count) {
 
 /// exhaustive core sequences: upper-cased/'_' image and the u/t-swapped image
 fn check_core(s: &[u8], st: &mut Stats) {
+    netted(st, || pair_case(s, s), s.len(), |st| check_core_inner(s, st));
+}
+
+fn check_core_inner(s: &[u8], st: &mut Stats) {
     st.eval();
     let up: Vec<u8> = s.iter().map(|c| if *c == b'-' { b'_' } else { c.to_ascii_uppercase() }).collect();
     let case = || pair_case(s, &up);
